@@ -284,4 +284,57 @@ pub(crate) mod verif_proofs {
         std::mem::forget(ic);
         std::mem::forget(is);
     }
+
+    /// [C16.hold] the look-ahead over the event queue, one TunnelSent packet waiting on a side: while that side's
+    /// blocking is active the packet cannot leave before the blocking expires - unless the blocking is bypassable AND
+    /// the packet carries the bypass flag (padding whose action allowed bypass, or the normal packet it replaced),
+    /// in which case, as without blocking, it leaves at its own time.  BOUNDED: one queued event, whole seconds.
+    #[kani::proof]
+    #[kani::unwind(6)]
+    pub(crate) fn k_sim_queue_blocked() {
+        let mut c = side(false);
+        let mut s = side(false);
+        let on_client: bool = kani::any();
+        let n = kani::any::<u16>() as u64;
+        let now = t0() + Duration::from_secs(n);
+        let te = n + kani::any::<u16>() as u64;
+        let pkt_bypass: bool = kani::any();
+        let pkt_padding: bool = kani::any();
+        let blocked: bool = kani::any();
+        let until = n + kani::any::<u16>() as u64;
+        let bypassable: bool = kani::any();
+        {
+            let me = if on_client { &mut c } else { &mut s };
+            me.blocking_until = if blocked { Some(t0() + Duration::from_secs(until)) } else { None };
+            me.blocking_bypassable = bypassable;
+        }
+        {
+            // the other side's blocking is arbitrary and must not matter for this packet
+            let other = if on_client { &mut s } else { &mut c };
+            other.blocking_until = if kani::any() { Some(t0() + Duration::from_secs(n + kani::any::<u16>() as u64)) } else { None };
+            other.blocking_bypassable = kani::any();
+        }
+        let mut sq = SimQueue::new();
+        sq.push_sim(SimEvent {
+            event: TriggerEvent::TunnelSent,
+            time: t0() + Duration::from_secs(te),
+            integration_delay: Duration::from_secs(0),
+            client: on_client,
+            contains_padding: pkt_padding,
+            bypass: pkt_bypass,
+            replace: false,
+            debug_note: None,
+        });
+        let (d, _q, is_client) = queue_peek::peek_queue(&sq, &c, &s, Duration::from_secs(0), Duration::from_secs(0), Duration::MAX, now);
+        // written from the statement
+        let may_bypass = bypassable && pkt_bypass;
+        let leaves_at = if blocked && !may_bypass && until > te { until } else { te };
+        assert!(d == Duration::from_secs(leaves_at - n), "[C16.hold] nothing leaves a blocked side before the expiry unless bypass allows");
+        assert!(is_client == on_client, "[C16.hold]");
+        kani::cover!(blocked && !may_bypass && until > te, "held back");
+        kani::cover!(blocked && may_bypass && until > te, "bypasses");
+        std::mem::forget(c);
+        std::mem::forget(s);
+        std::mem::forget(sq);
+    }
 }
